@@ -205,6 +205,39 @@ fn run_shard(ctx: &ShardCtx) {
         &format!("lists of <= 3 tokens of <= 3 symbols, lists of <= 2 tokens of <= {} symbols, lists of <= 4 tokens of <= 2 symbols; lists of <= 2 tokens of <= 3 symbols over length-boundary characters", b),
         !ctx.failed(),
     );
+    // every scalar value in every position of a token that matters to the classification: alone, leading, after one dash,
+    // after two dashes, inside a cluster (a scalar that is mistaken for a dash, or swallowed by one, shows here)
+    if !ctx.failed() {
+        let mut n = 0u64;
+        for v in 0x01u32..=0x10FFFF {
+            let Some(c) = char::from_u32(v) else { continue };
+            idx += 1;
+            if !ctx.mine(idx) {
+                continue;
+            }
+            let lists = [
+                vec![c.to_string(), format!("{}a", c)],
+                vec![format!("-{}a", c), format!("--{}", c)],
+                vec![format!("-a{}", c), format!("{}-", c), "--".to_string(), format!("-{}", c)],
+            ];
+            for list in lists.iter() {
+                ctx.count_eval();
+                n += 1;
+                if let Err((e, o)) = compare(list) {
+                    ctx.fail(Failure::new("classify-enum", json!({"tokens": list}), format!("classification of {:?} (U+{:04X}): {}", list, v, e), o));
+                    break;
+                }
+            }
+            if ctx.failed() {
+                break;
+            }
+            if v % 4096 == 0x2d {
+                ctx.nontrivial_enum(|| json!({"scalar": format!("U+{:04X}", v), "tokens": lists[1]}));
+            }
+        }
+        ctx.class_n("all-scalar sweep (lists)", n);
+        ctx.exhaustive("every scalar value (U+0001..U+10FFFF) alone, leading, after one and two dashes and inside a cluster", !ctx.failed());
+    }
     let enumerated = ctx.res.borrow().evaluations;
     ctx.class_n("enumerated", enumerated);
 
